@@ -11,7 +11,7 @@ import time
 import numpy as np
 
 from vf import gen, ops as O
-from vf.compare import compare_op
+from vf.compare import signed_scale, compare_op
 from vf.checks.c05 import ties
 
 CHUNKINGS = ["single", "ones", "uneven", "only_freq", "only_dir", "only_lead", "auto"]
@@ -132,7 +132,8 @@ def one(ctx, rng, xr, dask, ops, names):
             rec.bad(name, key, {"op": name, "chunks": {k: (list(v) if isinstance(v, tuple) else v) for k, v in chunks.items()},
                                 "dims": x.dims, "sizes": dict(x.sizes), "raised": repr(e)[:400]}, mech)
             continue
-        ok, det = compare_op(op, R0, Rc, f32, rtol=(2e-5 if (f32 or op.peak) else 1e-11), circ_atol=(0.05 if (f32 or op.peak) else 1e-8))
+        ok, det = compare_op(op, R0, Rc, f32, rtol=(2e-5 if (f32 or op.peak) else 1e-11), circ_atol=(0.05 if (f32 or op.peak) else 1e-8),
+                             scale=signed_scale(op, x))
         if ok is None:
             rec.skip(name, "cancellation")
         elif ok:
